@@ -7,7 +7,8 @@ ID = "C09"
 LEVEL = "fault_enumeration"
 RULE = ("Hypothesis over APIs x gRPC service configs (0..4 methodConfig entries, entries naming 1..3 methods, timeout with/without "
         "retryPolicy, fractional durations, retryableStatusCodes drawn from all 16 non-OK canonical codes) x inner fault sequences per "
-        "method on sync and asyncio clients: plain call | retryable^k (k <= 4) then OK | an unlisted code | a server failing forever | "
+        "method on sync and asyncio clients: plain call | retryable^k (k <= 4) then OK | an unlisted code | a server failing forever | a server "
+        "recovering after 150 s of fake time under a policy without timeout | "
         "fault on a method not named | explicit per-call timeout | explicit per-call retry on an unlisted code. The harness owns the "
         "clock (sleeps are recorded, return at once and advance time.monotonic). Oracle at the loopback server: attempt count, "
         "per-attempt deadline (<= entry timeout and >= timeout - measured elapsed - 0.35s; absent without timeout), waits <= "
